@@ -565,6 +565,8 @@ type c13Combine struct {
 	X       [2]uint64    `json:"x"`
 	Reduced [2][2]uint64 `json:"reduced"`
 	Prelude *friShape    `json:"other_fri_chip_first,omitempty"`
+	// Warmup: the same chip first combines the same data under this other alpha (a second proof through one chip)
+	Warmup *[2]uint64 `json:"other_alpha_first_on_same_chip,omitempty"`
 }
 
 func c13CombineRun(a c13Combine) caseResult {
@@ -595,6 +597,10 @@ func c13CombineRun(a c13Combine) caseResult {
 		}
 		alpha, zeta, x := takeE(), takeE(), takeE()
 		pre := []gl.QuadraticExtensionVariable{takeE(), takeE()}
+		if a.Warmup != nil && !(toE(a.X) == ctx.Points[0] || toE(a.X) == ctx.Points[1]) {
+			wa := gl.QuadraticExtensionVariable{gl.NewVariable(a.Warmup[0]), gl.NewVariable(a.Warmup[1])}
+			chip.VerifCombineInitial(chip.GetInstance(zeta), tp, wa, x, pre)
+		}
 		r := chip.VerifCombineInitial(chip.GetInstance(zeta), tp, alpha, x, pre)
 		return []frontend.Variable{r[0].Limb, r[1].Limb}
 	}
@@ -717,6 +723,11 @@ func TestC13(t *testing.T) {
 			ps := genShape().Draw(rt, "other_shape")
 			a.Prelude = &ps
 			class += "/after-another-fri-chip"
+		}
+		if rapid.IntRange(0, 3).Draw(rt, "warmup") == 0 {
+			w := e2(genE().Draw(rt, "other_alpha"))
+			a.Warmup = &w
+			class += "/second-use-of-the-chip"
 		}
 		s.exec(rt, "combine", a, class)
 	})
